@@ -138,12 +138,18 @@ Sync ==
         /\ Bind("price", price, price', LPriceAll(st))
         /\ Bind("vstat", vstat, vstat', LVStat(st))
         /\ Bind("deactEv", deactEv, deactEv', LDeact(st))
-        \* C06 does not decide which submissions are accepted, but freshness is measured from the stored record: an
-        \* accepted submission is stored as sent, stamped with the time and height of the block it arrived in
+        \* C06 does not decide which submissions are accepted, but the price rule reads the stored lists: after an
+        \* ACCEPTED submission the validator's list is the latest report per signal - the submitted signals as sent,
+        \* stamped with the time and height of the block they arrived in; every other current feed keeps its earlier
+        \* report whatever its status; reports of signals that are no current feeds are dropped; other validators'
+        \* lists are untouched
         /\ ("vpstamp" \in Checked /\ Line.e = "Submit" /\ Line.o.ok /\ Line.a.shape = "wf") =>
                LET m == MsgOf(Line.a.sps)
-                   obs == LVPrice(st)[Line.a.v]
-               IN \A s \in DOMAIN m : obs[s] = [st |-> m[s].st, price |-> m[s].price, ts |-> now, bh |-> h]
+                   obs == LVPrice(st)
+               IN /\ obs[Line.a.v] = [s \in Sig |->
+                          IF s \in DOMAIN m THEN [st |-> m[s].st, price |-> m[s].price, ts |-> now, bh |-> h]
+                          ELSE IF s \in Cur THEN vprice[Line.a.v][s] ELSE NoVP]
+                  /\ \A v \in Val \ {Line.a.v} : obs[v] = vprice[v]
         /\ UNCHANGED out
 
 TraceNext == Act \/ Sync
